@@ -40,7 +40,6 @@ def next (it : List α) : Option (α × List α) :=
 
 /-- `a <= v` element-wise -/
 def leMask (a : List Int) (v : Int) : List Bool := a.map (fun x => decide (x ≤ v))
-/-- `bool(mask.any())` -/
-def any (m : List Bool) : Bool := m.any id
+-- `bool(mask.any())` is `Py.any` of `Model/Py.lean`
 
 end Py
